@@ -417,6 +417,7 @@ def loop_checks(ctx, corr, batch, good: bytes) -> list:
     hs = histories(ctx.seed, ctx.tier, rng, good.decode("utf-8"), max(1, min(n_save, 6)), max(1, min(n_load, 6)))
     pending = []
     confirmed = False
+    t0 = time.monotonic()
     for hi, h in enumerate(hs):
         res = run_history(h)
         corr.count("loops: histories (several event loops in one process, shared paths)")
@@ -460,6 +461,7 @@ def loop_checks(ctx, corr, batch, good: bytes) -> list:
                     batch.ask(op)
                 hnd = batch.ask("loadinto " + P.json_tokens(val)) if state == "value" else batch.ask("file " + state)
                 pending.append((h, res, rec, hnd))
+    corr.notes.append(f"loops: {len(hs)} histories of a process (several event loops, shared persistence paths) ran in {time.monotonic() - t0:.1f}s")
     return pending
 
 
